@@ -774,3 +774,71 @@ Theorem C07_ex_handout_run :
 Proof. exact ex_handout_run. Qed.
 Print Assumptions C07_ex_handout_run.
 
+
+
+(* ====================================================================== *)
+(* ==== application contract: no residual hypothesis ==================== *)
+(* ====================================================================== *)
+(* With the application contract of M/RaftProofsAppContract.v (Props/C14.v, section
+   "application contract") the remaining condition of C07_handout_contiguous_node2
+   ("first index of the log <= cursor + 1" at ready / advance) is an invariant: compaction
+   stays at or below applied <= cursor, a restored snapshot moves the cursor at the next
+   ready, and no library call happens between a ready and its advance.
+   PROVED: along any contract-abiding trace from RawNode::new the committed entries handed
+   out are exactly start+1 .. commit_since_index, in order (Hist), and each is the log's entry
+   at its index, at or below the commit index, when it is handed out.
+   WITNESS: with Config.applied below the store's snapshot point (init_ok violated) hand-out
+   starts at the log's first index instead of Config.applied + 1. *)
+From RV Require Import M.RaftProofsC20 M.RaftProofsC20Sites M.RaftProofsC20Inv M.RaftProofsC20Safe
+  M.RaftProofsC20Shape M.RaftProofsC20Shape2 M.RaftProofsC20Shape3 M.RaftProofsAppContract.
+
+(* a light ready moves the cursor only over committed, persisted entries *)
+Theorem C07_contract_glr_bounds :
+  forall rw n n' lr,
+  gen_light_ready n = Ok (n', lr) -> NLI rw n -> CsiOK n ->
+  max_apply_unpersisted_log_limit (nlog n) = 0 ->
+  rn_commit_since_index n <= committed (nlog n) ->
+  rn_commit_since_index n < u_offset (unst (nlog n)) ->
+  nlog n' = nlog n
+  /\ rn_commit_since_index n <= rn_commit_since_index n'
+  /\ rn_commit_since_index n' <= committed (nlog n)
+  /\ rn_commit_since_index n' < u_offset (unst (nlog n))
+  /\ (lr_committed_entries lr <> [] -> 1 <= committed (nlog n)).
+Proof. exact glr_bounds. Qed.
+Print Assumptions C07_contract_glr_bounds.
+
+Theorem C07_contract_handout_contiguous_from_contract :
+  forall c st sa dr n0 a n,
+  rn_new c st sa dr = Ok (inr n0) -> init_ok c st n0 -> crun (init_app c st) n0 a n ->
+  Hist n (a_hist a)
+  /\ contiguous_from (fst (a_hist a) + 1) (snd (a_hist a))
+  /\ rn_commit_since_index n = fst (a_hist a) + N.of_nat (length (snd (a_hist a))).
+Proof. exact handout_contiguous_from_contract. Qed.
+Print Assumptions C07_contract_handout_contiguous_from_contract.
+
+Theorem C07_contract_handed_entries_are_log_entries :
+  forall a n o n' ot,
+  Good a n -> app_ok a o -> peer_ok o -> idx_margin n o -> exec n o = Ok (n', ot) ->
+  forall e, In e (snd ot) ->
+    match o with
+    | OReady => ll_get (abs (nlog n)) (e_index e) = Some e /\ e_index e <= committed (nlog n)
+    | OAdvanceAppend _ => ll_get (abs (nlog n')) (e_index e) = Some e /\ e_index e <= committed (nlog n')
+    | OAdvance rd => exists n1 lr, rn_advance_append n rd = Ok (n1, lr)
+                       /\ ll_get (abs (nlog n1)) (e_index e) = Some e /\ e_index e <= committed (nlog n1)
+    | _ => False
+    end.
+Proof. exact handed_entries_are_log_entries. Qed.
+Print Assumptions C07_contract_handed_entries_are_log_entries.
+
+Import ContractSamples ContractWitnesses.
+
+(* init_ok is needed *)
+Theorem C07_contract_applied_below_snapshot_refuted :
+  rn_new cfg st57 None [15; 15; 15; 15] = Ok (inr n57) /\ SInv st57
+    /\ c_applied cfg = 0 /\ first_of st57 - 1 = 5 /\ committed (nlog n57) = 7
+    /\ exists n1 rd, rn_ready n57 = Ok (n1, rd)
+         /\ map e_index (lr_committed_entries (rd_light rd)) = [6; 7]
+         /\ ~ Hist n1 (hist_step (c_applied cfg, []) (None, lr_committed_entries (rd_light rd))).
+Proof. exact applied_below_snapshot_refuted. Qed.
+Print Assumptions C07_contract_applied_below_snapshot_refuted.
+
